@@ -3,6 +3,7 @@
 
   adapters.run px py pw ph <stack> <calls>
     -> bb=<boxes> l1=<R1 log> m1=<R1 map> l2=<R2 log> m2=<R2 map>
+  adapters.runb: the same with the colour maps of the real chain Rgb565 <- BinaryColor <- BinaryColor.
 -/
 import EG.Driver.Util
 import EG.Model.Adapters
@@ -10,17 +11,21 @@ namespace EG.Driver
 open EG
 
 /-- `x,y,w,h` -/
-def parseRect4 (s : String) : Rect :=
+private def parseRect4 (s : String) : Rect :=
   match (s.splitOn ",") with
   | [x, y, w, h] => ⟨⟨parseInt x, parseInt y⟩, ⟨parseNat w, parseNat h⟩⟩
   | _ => Rect.zero
 
 /-- The colour conversion of the k-th colour-converted adapter counted from the root
 (`impl From<L(k+1)> for L(k)` in m_adapters.rs). -/
-def convFn (k : Nat) (c : Color) : Color := 3 * c + k + 1
+private def convFn (k : Nat) (c : Color) : Color := 3 * c + k + 1
+
+/-- Second chain (real colour types): `BinaryColor -> Rgb565` (Off -> 0, On -> 0xFFFF) for the
+root-most converted adapter, identity `BinaryColor -> BinaryColor` above it. -/
+private def convFnB (k : Nat) (c : Color) : Color := if k = 0 then (if c % 2 = 1 then 65535 else 0) else c
 
 /-- adapter stack, root-most first; `v` adapters are numbered from the root -/
-def parseStack (s : String) : Stack :=
+private def parseStack (convFn : Nat → Color → Color) (s : String) : Stack :=
   if s == "-" then [] else
   let rec go (parts : List String) (k : Nat) : Stack :=
     match parts with
@@ -35,12 +40,12 @@ def parseStack (s : String) : Stack :=
       else Adapter.converted (convFn k) :: go rest (k + 1)
   go (s.splitOn "/") 0
 
-def parsePixel (s : String) : Pt × Color :=
+private def parsePixel (s : String) : Pt × Color :=
   match s.splitOn "," with
   | [x, y, c] => (⟨parseInt x, parseInt y⟩, parseNat c)
   | _ => (Pt.zero, 0)
 
-def parseCall (s : String) : Call :=
+private def parseCall (s : String) : Call :=
   if s.startsWith "di:" then
     let body := (s.drop 3).toString
     if body == "-" then Call.drawIter [] else Call.drawIter ((body.splitOn ";").map parsePixel)
@@ -54,7 +59,7 @@ def parseCall (s : String) : Call :=
     | _ => Call.clear 0
   else Call.clear (parseNat (s.drop 3).toString)
 
-def parseCalls (s : String) : List Call :=
+private def parseCalls (s : String) : List Call :=
   if s == "-" then [] else (s.splitOn "|").map parseCall
 
 /-- `Call::fmt` of common.rs -/
@@ -66,13 +71,11 @@ private def fmtCall : Call → String
 
 private def fmtLog (cs : List Call) : String := joinOr "|" (cs.map fmtCall)
 
-def handleAdapters (stream : String) (t : Toks) : Option String :=
-  match stream with
-  | "adapters.run" =>
+private def runOp (conv : Nat → Color → Color) (t : Toks) : Option String :=
     let (B, t) := t.rect
     let (st, t) := t.str
     let (cl, _) := t.str
-    let stack := parseStack st
+    let stack := parseStack conv st
     let calls := parseCalls cl
     let rootCalls := calls.map (lowerStack B stack)
     let boxes := stackBoxes B stack
@@ -81,6 +84,11 @@ def handleAdapters (stream : String) (t : Toks) : Option String :=
     let m1 := canonPix (rootCalls.flatMap (Call.writesDefault B))
     let m2 := canonPix (rootCalls.flatMap (Call.writesNative B))
     some s!"bb={joinOr "/" (boxes.map fmtRect)} l1={fmtLog log1} m1={fmtPix m1} l2={fmtLog rootCalls} m2={fmtPix m2}"
+
+def handleAdapters (stream : String) (t : Toks) : Option String :=
+  match stream with
+  | "adapters.run" => runOp convFn t
+  | "adapters.runb" => runOp convFnB t
   | _ => none
 
 end EG.Driver
